@@ -34,8 +34,10 @@ func (e *kvElection) logWithContext(ctx context.Context) []zap.Field {
 	// Add correlation ID if present in context. The election context is nil
 	// before Start and after a completed StopWithContext.
 	if ctx != nil {
-		if correlationID := ctx.Value("correlation_id"); correlationID != nil {
-			fields = append(fields, zap.String("correlation_id", correlationID.(string)))
+		// The context is the caller's: a value of another type under this key
+		// is not a correlation id and must not bring the election down.
+		if correlationID, ok := ctx.Value("correlation_id").(string); ok {
+			fields = append(fields, zap.String("correlation_id", correlationID))
 		}
 	}
 
